@@ -5,6 +5,8 @@ carry the validated type string of *that* terminal)
 -/
 import KikiVerif.Proofs.Emit
 import KikiVerif.Properties.C09
+import KikiVerif.Model.Validate
+import KikiVerif.Spec.Unparse
 
 namespace KikiVerif.C13
 open KikiVerif KikiVerif.Emit
@@ -35,7 +37,66 @@ theorem C13_type_order (toks : List Token) (fuel : Nat) (t : FrontParse.CTree)
     ∃ ast, FrontParse.cstToAst t = some ast ∧ Spec.unFile ast = toks.map Spec.erase :=
   C09.C09_flatten toks fuel t h
 
+/-! ### the rendered type string is the user's tokens, one after the other -/
+
+/-- the text of a token that can occur in a type (`, ` after a comma; everything else verbatim, no spaces) -/
+def tkText : Spec.Tk → Str
+  | .ident n => n
+  | .dcolon => "::".toList
+  | .comma => ", ".toList
+  | .langle => ['<']
+  | .rangle => ['>']
+  | .lparen => ['(']
+  | .rparen => [')']
+  | _ => []
+
+theorem path_tokens : ∀ p : List Ast.Ident, (Spec.unPath p).flatMap tkText = Validate.pathToString p := by
+  intro p
+  unfold Validate.pathToString
+  induction p with
+  | nil => rfl
+  | cons i rest ih =>
+    cases rest with
+    | nil => simp [Spec.unPath, tkText, Text.join]
+    | cons j rest' =>
+      simp only [Spec.unPath, List.flatMap_cons, tkText, List.map_cons, Text.join] at ih ⊢
+      rw [ih]
+      simp [List.append_assoc]
+
+mutual
+theorem type_tokens : ∀ ty : Ast.Ty, (Spec.unType ty).flatMap tkText = Validate.typeToString ty
+  | .unit => by simp [Spec.unType, tkText, Validate.typeToString]
+  | .path p => by simp only [Spec.unType, Validate.typeToString]; exact path_tokens p
+  | .complex callee args => by
+    simp only [Spec.unType, Validate.typeToString, List.flatMap_append, path_tokens, types_tokens args]
+    simp [tkText]
+theorem types_tokens : ∀ tys : List Ast.Ty,
+    (Spec.unTypes tys).flatMap tkText = Text.join ", ".toList (Validate.typesToStrings tys)
+  | [] => by simp [Spec.unTypes, Validate.typesToStrings, Text.join]
+  | [t] => by simp [Spec.unTypes, Validate.typesToStrings, Text.join, type_tokens t]
+  | t :: u :: rest => by
+    have ih := types_tokens (u :: rest)
+    simp only [Spec.unTypes, Validate.typesToStrings, Text.join, List.flatMap_append, type_tokens t] at ih ⊢
+    rw [ih]
+    simp [tkText, List.append_assoc]
+end
+
+/-- **C13, rendering**: the type string stored for a terminal (and emitted at every use site, `C13_use_sites`)
+is the concatenation of the tokens of the payload type as written — every path segment, `::`, `<`, `>`, `(`, `)`
+verbatim and `, ` for each comma — at any nesting depth.  With `C13_type_order` (the AST's tokens are the
+user's tokens) the emitted type is the user's type token for token. -/
+theorem C13_type_tokens (ty : Ast.Ty) : Validate.typeToString ty = (Spec.unType ty).flatMap tkText :=
+  (type_tokens ty).symm
+
+/-- non-trivial instance: `a::B<(), C<d::E, F>>` -/
+example :
+    let i (s : String) : Ast.Ident := ⟨s.toList, 0⟩
+    Validate.typeToString (.complex [i "a", i "B"] [.unit, .complex [i "C"] [.path [i "d", i "E"], .path [i "F"]]])
+      = "a::B<(), C<d::E, F>>".toList := by
+  decide
+
 end KikiVerif.C13
 
+#print axioms KikiVerif.C13.C13_type_tokens
 #print axioms KikiVerif.C13.C13_use_sites
 #print axioms KikiVerif.C13.C13_type_order
